@@ -614,6 +614,37 @@ def _h_str_new(args, kw):
     return str.__new__(*args, **kw)
 
 
+import string as _string
+
+
+def _h_template_substitute(args, kw):
+    """string.Template.substitute on a concrete template with symbolic values (documented rule: $$ -> $,
+    $name / ${name} -> str(mapping[name]), KeyError when missing, ValueError on a stray $)"""
+    self = args[0]
+    mapping = args[1] if len(args) > 1 else kw
+    if len(args) > 1 and kw:
+        mapping = dict(args[1], **kw)
+    vals = list(mapping.values()) if isinstance(mapping, dict) else []
+    if not _has_sym(vals):
+        return _string.Template.substitute(*args, **kw)
+    out = []
+    pos = 0
+    tmpl = self.template
+    for m in self.pattern.finditer(tmpl):
+        out.extend(tmpl[pos:m.start()])
+        pos = m.end()
+        named = m.group('named') or m.group('braced')
+        if named is not None:
+            v = mapping[named]
+            out.extend(chars_of(_h_str((v,), {})) if type(v) in _SYMSET else str(v))
+        elif m.group('escaped') is not None:
+            out.append(self.delimiter)
+        elif m.group('invalid') is not None:
+            raise ValueError('Invalid placeholder in string')
+    out.extend(tmpl[pos:])
+    return mk(core.CUR, out)
+
+
 _HANDLERS = {int.__new__: _h_int_new, float.__new__: _h_float_new, str.__new__: _h_str_new, ord: _h_ord, chr: _h_chr, int: _h_int, float: _h_float, str: _h_str, repr: _h_repr,
              isinstance: _h_isinstance, type: _h_type, hash: _h_hash, round: _h_round, bool: _h_bool,
              _os.path.splitext: _h_splitext, _re.sub: _h_re_sub}
@@ -688,12 +719,17 @@ def _sx_call(f, *args, **kw):
         h = _HANDLERS_PY.get(f)
         if h is not None:
             return h(args, kw)
+    elif tf is _METHOD:
+        h = _HANDLERS_PY.get(f.__func__)
+        if h is not None:
+            return h((f.__self__,) + args, kw)
     return f(*args, **kw)
 
 
 _WRAPPER_DESCR = type(str.__add__)
 _FUNCTION = type(_sx_not)
-_HANDLERS_PY = {_os.path.splitext: _h_splitext, _re.sub: _h_re_sub}
+_HANDLERS_PY = {_os.path.splitext: _h_splitext, _re.sub: _h_re_sub, _string.Template.substitute: _h_template_substitute}
+_METHOD = type(_string.Template('x').substitute)
 
 
 def _unbound(f, args, kw):
